@@ -206,6 +206,14 @@ impl Ctx {
                 continue;
             };
             let path = self.verif_dir.join(replay);
+            // a reproduction written for another engine of the same property is that engine's business
+            let file_engine = std::fs::read_to_string(&path)
+                .ok()
+                .and_then(|t| serde_json::from_str::<serde_json::Value>(&t).ok())
+                .and_then(|v| v.get("engine").and_then(|e| e.as_str().map(str::to_string)));
+            if matches!(&file_engine, Some(e) if e != engine) {
+                continue;
+            }
             let Some((_p, e, case)) = load_replay::<C>(&path) else {
                 self.inconclusive.push(format!("known-finding replay {replay} unreadable"));
                 continue;
